@@ -78,7 +78,9 @@ pub fn gen_case(seed: u64, idx: u64) -> (HistorySpec, &'static str) {
     let scenario = SCENARIOS[(idx % SCENARIOS.len() as u64) as usize];
     let frags = rng.urange(2, 4);
     let rpf = *rng.pick(&[6usize, 10]);
-    let col: &'static str = if rng.chance(3, 4) { "v" } else { "w" };
+    let col: &'static str = if rng.chance(2, 3) { "v" } else { "w" };
+    // names starting with "bm" build a bitmap index (engine::exec_op), the others a btree
+    let iname: &str = if col == "w" && rng.bool() { "bm_idx" } else { "idx" };
     // stable row ids make compaction keep row ids; without them compaction remaps the index
     let stable = rng.chance(1, 3);
     let mut pre_alloc = IdAlloc::new(8);
@@ -87,10 +89,10 @@ pub fn gen_case(seed: u64, idx: u64) -> (HistorySpec, &'static str) {
     let mut a3 = IdAlloc::new(3);
     let mut pre_ops = vec![];
     let mut actors: Vec<(u64, Op)> = vec![];
-    let create = Op::CreateIndex { col, name: "idx".into() };
+    let create = Op::CreateIndex { col, name: iname.into() };
     // setup for optimize scenarios: an index plus unindexed data
     let optimize_setup = |rng: &mut Rng, pre_ops: &mut Vec<Op>, pre_alloc: &mut IdAlloc| {
-        pre_ops.push(Op::CreateIndex { col, name: "idx".into() });
+        pre_ops.push(Op::CreateIndex { col, name: iname.into() });
         pre_ops.push(Op::Append { ids: pre_alloc.take(rng.urange(2, 5)), salt: 91 });
     };
     let far = u64::MAX; // clamped to the latest version by the runner
